@@ -367,6 +367,7 @@ func (fv *FV) step(st *State) (*State, []*State) {
 			fv.setReg(st, x, SymVal{K: VCellPtr, Cell: id, Root: el})
 		}
 	case *ssa.Store:
+		fv.ownedCheck(st, x)
 		fv.store(st, fv.val(st, x.Addr), fv.val(st, x.Val), x.Val.Type(), x.Pos(), x)
 	case *ssa.UnOp:
 		fv.unop(st, x)
@@ -1066,4 +1067,75 @@ func (fv *FV) htmlConv(st *State, src ssa.Value, to types.Type, v SymVal, pos to
 	}
 	fv.decls.Add(1, "pv_trusted", "(declare-fun pv_trusted (pv_Str) Bool)\n(assert (pv_trusted pv_empty))")
 	fv.oblige(st, "htmlconv", "trusted", pos, Term{S: "(pv_trusted " + t.S + ")", Sort: SBool}, "text converted to template.HTML must be trusted markup")
+}
+
+// ownedCheck: `owned NAME` - the local NAME may only ever hold a slice whose backing array this
+// activation allocated (a literal, make, nil, or append/reslice of such a value). Slices are modelled as
+// values, so a slice that shares its backing array with the heap (a scratch buffer kept in a field, a
+// parameter) could be overwritten by a callee without the model noticing: the directive rules that out
+// syntactically for the locals the contract relies on.
+func (fv *FV) ownedCheck(st *State, x *ssa.Store) {
+	if fv.spec == nil || len(fv.spec.Owned) == 0 || st.frame == nil || st.frame.ID != 0 {
+		return
+	}
+	cellName := func(v ssa.Value) string {
+		switch c := v.(type) {
+		case *ssa.Alloc:
+			return c.Comment
+		case *ssa.FreeVar:
+			return c.Name()
+		}
+		return ""
+	}
+	isOwned := func(v ssa.Value) bool {
+		name := cellName(v)
+		for _, n := range fv.spec.Owned {
+			if name != "" && n == name {
+				return true
+			}
+		}
+		return false
+	}
+	if !isOwned(x.Addr) {
+		return
+	}
+	aName := cellName(x.Addr)
+	var fresh func(v ssa.Value, depth int) bool
+	fresh = func(v ssa.Value, depth int) bool {
+		if depth > 12 {
+			return false
+		}
+		switch y := v.(type) {
+		case *ssa.Const:
+			return y.IsNil()
+		case *ssa.MakeSlice:
+			return true
+		case *ssa.Slice:
+			if al, ok := y.X.(*ssa.Alloc); ok {
+				_, isArr := al.Type().(*types.Pointer).Elem().Underlying().(*types.Array)
+				return isArr
+			}
+			return fresh(y.X, depth+1)
+		case *ssa.UnOp:
+			if y.Op == token.MUL {
+				if isOwned(y.X) {
+					return true
+				}
+			}
+			return false
+		case *ssa.Call:
+			if b, ok := y.Call.Value.(*ssa.Builtin); ok && b.Name() == "append" && len(y.Call.Args) > 0 {
+				return fresh(y.Call.Args[0], depth+1)
+			}
+			return false
+		case *ssa.ChangeType:
+			return fresh(y.X, depth+1)
+		}
+		return false
+	}
+	goal := tTrue
+	if !fresh(x.Val, 0) {
+		goal = tFalse
+	}
+	fv.oblige(st, "owned", aName, x.Pos(), goal, "local "+aName+" must only hold slices allocated by this activation (no shared backing array)")
 }
